@@ -24,7 +24,7 @@ ASSUMPTIONS = ["decimal.Decimal parses the generated numbers"]
 MONITORS = ["timingdata_source", "displaybpm"]
 REQUIRED = ["source_chart", "source_simfile", "version_0.7", "version_0.69", "version_absent", "sm_simfile", "sm_chart",
             "chart_offset_absent_simfile_offset_set", "dbpm_static", "dbpm_range", "dbpm_random", "dbpm_malformed",
-            "dbpm_fallback_single", "dbpm_fallback_range", "ignore_specified"]
+            "dbpm_fallback_single", "dbpm_fallback_range", "dbpm_fallback_range_equal_values", "ignore_specified"]
 
 PROPS = ["BPMS", "STOPS", "DELAYS", "TIMESIGNATURES", "TICKCOUNTS", "COMBOS", "WARPS", "SPEEDS", "SCROLLS", "FAKES", "LABELS"]
 VERSIONS = [None, "", "0.69", "0.7", "0.70", "0.83", "1.0"]
@@ -120,7 +120,11 @@ def rnum(rng, lo=1, hi=999):
 def tagged_values(rng, side):
     base = 100 if side == "s" else 500
     n = rng.choice([1, 1, 2, 3])
-    bpms = ",".join(f"{4 * i}.000={base + rng.randint(0, 399)}.{rng.randint(0, 999):03d}" for i in range(n))
+    if n > 1 and rng.random() < 0.3:
+        v = base + rng.randint(0, 399)
+        bpms = ",".join(f"{4 * i}.000={v}{rng.choice(['', '.0', '.000'])}" for i in range(n))  # several entries, one value
+    else:
+        bpms = ",".join(f"{4 * i}.000={base + rng.randint(0, 399)}.{rng.randint(0, 999):03d}" for i in range(n))
     return {
         "BPMS": bpms,
         "STOPS": f"{rng.randint(1, 9)}.000=0.{base + rng.randint(0, 99)}",
@@ -266,6 +270,8 @@ def run_one(ctx, case):
         else:
             want = RangeDisplayBPM(min=min(vals), max=max(vals))
             ctx.feat("dbpm_fallback_range")
+            if min(vals) == max(vals):
+                ctx.feat("dbpm_fallback_range_equal_values")
     try:
         if chart is None:
             got = displaybpm(sf, ignore_specified=ignore) if ignore else displaybpm(sf)
